@@ -107,7 +107,7 @@ UnfoldClauses(e) == LET x == Unfold(e.call.search)  o == e.obs IN
 \* ---- C08 / C09 / C12(list part): list search
 LOf(c) == IF c.univ = "" THEN c.L ELSE UniverseSeq(c.univ)
 FindListClauses(e) == LET L == LOf(e.call)  x == FindList(L, e.call.search)  o == e.obs IN
-  << C("err", o.err = (IF x.err = "spil" THEN "SpilException" ELSE "")),
+  << C("err", ~x.pre \/ o.err = (IF x.err = "spil" THEN "SpilException" ELSE "")),
      C("set", ~x.pre \/ x.err # "" \/ o.err # "" \/ ToSet(o.res) = x.res),
      C("nodup", Cardinality(ToSet(o.res)) = Len(o.res)),
      C("subset", ToSet(o.res) \subseteq ToSet(L)),
@@ -121,6 +121,30 @@ MatchClauses(e) == LET x == FindList(<<e.call.entry>>, e.call.search)  o == e.ob
   << C("noraise", o.err = "" \/ (o.err = "SpilException" /\ x.err = "spil")),
      C("match_iff_found", o.err # "" \/ ~o.typed \/ ~x.pre \/ o.value = (e.call.entry \in x.res)) >>
 
+\* ---- C10: the algebra of the search syntax, on observed results
+LeafRestrictedObs(sr, res) == {x \in res : \E u \in Unfold(sr).res : LastKey(IdxOf(u.type)) = LeafKeyOf(BaseOfName(u.type)) /\ MatchSegs(u.segs, x)}
+AlgebraClauses(e) == LET o == e.obs  c == e.call  P == o.parts
+                         whole == ToSet(o.res)
+                         anyerr == o.err # "" \/ \E i \in DOMAIN P : P[i].err # "" IN
+  << C("noraise", \A i \in DOMAIN P : P[i].err \in {"", "SpilException"}),
+     C("nodup", Cardinality(whole) = Len(o.res) /\ \A i \in DOMAIN P : Cardinality(ToSet(P[i].res)) = Len(P[i].res)),
+     C("typed_and_matching", anyerr \/ \A x \in whole : ResolveFirst(x).type # "" /\ \E u \in Unfold(c.search).res : MatchSegs(u.segs, x)),
+     C("algebra_" \o c.rule, anyerr \/
+        (IF c.rule = "union" THEN whole = UNION {ToSet(P[i].res) : i \in DOMAIN P}
+         ELSE IF c.rule = "starstar" THEN whole = UNION {LeafRestrictedObs(c.parts[i], ToSet(P[i].res)) : i \in DOMAIN P}
+         ELSE IF c.rule = "filter" THEN ToSet(P[2].res) = {x \in ToSet(P[1].res) : DGetOr(ResolveFirst(x).fields, c.arg[1], "") = c.arg[2]}
+         ELSE ToSet(P[2].res) = {x \in ToSet(P[1].res) : x[c.arg[1]] = c.arg[2]})) >>
+
+\* ---- C19: extrapolation and pattern replacement of an arbitrary template configuration
+NamePh(seq) == [i \in DOMAIN seq |-> <<seq[i].name, seq[i].ph>>]
+ExtrapolateClauses(e) == LET cfg == e.call.cfg  o == e.obs
+                             out == Extrapolate(cfg.templates, ToSet(cfg.toX))
+                             rep == PatternReplace(out, cfg.kps) IN
+  << C("noraise", o.err = "" /\ o.err2 = ""),
+     C("names_in_order", [i \in DOMAIN o.out |-> o.out[i][1]] = [i \in DOMAIN out |-> out[i].name]),
+     C("templates", o.out = NamePh(out)),
+     C("replaced", o.replaced = NamePh(rep)) >>
+
 Clauses(e) ==
   IF "raised" \in DOMAIN e.obs /\ StrStarts(e.obs.raised, "HARNESS") THEN << C("harness", FALSE) >>
   ELSE CASE e.call.op = "sid"     -> SidClauses(e)
@@ -132,6 +156,8 @@ Clauses(e) ==
          [] e.call.op = "unfold"  -> UnfoldClauses(e)
          [] e.call.op = "findlist" -> FindListClauses(e)
          [] e.call.op = "match"   -> MatchClauses(e)
+         [] e.call.op = "algebra" -> AlgebraClauses(e)
+         [] e.call.op = "extrapolate" -> ExtrapolateClauses(e)
          [] OTHER -> << C("unknown_op", FALSE) >>
 
 \* coverage tag of a line (which row of a decision table / which case the line exercised)
@@ -147,6 +173,10 @@ Tag(e) ==
   ELSE IF e.call.op = "findlist" THEN LET x == FindList(LOf(e.call), e.call.search) IN
         "findlist:" \o (IF x.err # "" THEN "error" ELSE IF ~x.pre THEN "gt-precondition-false"
                         ELSE (IF x.sorted THEN "gt:" ELSE "star:") \o (IF x.res = {} THEN "nothing" ELSE "found"))
+  ELSE IF e.call.op = "algebra" THEN "algebra:" \o e.call.rule \o ":" \o (IF e.call.rule = "union" THEN e.call.arg[1] ELSE "") \o (IF e.obs.res = <<>> THEN ":empty" ELSE ":found")
+  ELSE IF e.call.op = "extrapolate" THEN
+        "extrapolate:" \o (IF e.call.cfg.toX = <<>> THEN "none" ELSE IF Len(e.call.cfg.toX) = 1 THEN "one" ELSE "many")
+                       \o (IF e.call.cfg.kps = <<>> THEN "" ELSE ":replace")
   ELSE e.call.op
 Bump(cov, t) == [x \in DOMAIN cov \cup {t} |-> IF x = t THEN (IF t \in DOMAIN cov THEN cov[t] + 1 ELSE 1) ELSE cov[x]]
 Failed(e) == SelectSeq(Clauses(e), LAMBDA c : ~c[2])
